@@ -93,9 +93,9 @@ void on_acquire(vrt::MutexCore* core, int f, bool shared) {
     S->key[v] = S->cur_push_front[f] ? --S->minkey : ++S->maxkey;
 }
 
-template<class T, class A = vrt::QAlloc<T>>
+template<class T, class A = vrt::QAlloc<T>, class M = vstd::mutex>
 vh::Outcome run_rcu(const vh::Case& c, Prop prop) {
-    using List = lg::rcu_list<T, vstd::mutex, A>;
+    using List = lg::rcu_list<T, M, A>;
     using G = lg::rcu_guarded<List>;
     using E = Elem<T>;
     constexpr bool tracked = std::is_same<T, Tracked>::value;
@@ -225,7 +225,8 @@ vh::Outcome run_rcu(const vh::Case& c, Prop prop) {
                             } else {
                                 auto h = rl.lock_read();
                                 auto it = h->begin(); st.handles[hi].reg_step = vrt::now_step();
-                                for (; it != h->end(); ++it) { vrt::check_live_addr(&*it, "iterator dereference"); seen.push_back(E::id(*it)); if (op.b & 1) vrt::step(); }
+                                if (op.b & 2) { while (h->end() != it) { auto cur = it++; vrt::check_live_addr(&*cur, "iterator dereference"); seen.push_back(E::id(*cur)); if (op.b & 1) vrt::step(); } }   // post-increment, reversed comparison
+                                else for (; it != h->end(); ++it) { vrt::check_live_addr(&*it, "iterator dereference"); seen.push_back(E::id(*it)); if (op.b & 1) vrt::step(); }
                                 long end_step = vrt::now_step();
                                 check_traversal(seen, begin_call, end_step, mut0);
                                 st.handles[hi].alive = false;
@@ -350,6 +351,12 @@ vh::Outcome run_rcu(const vh::Case& c, Prop prop) {
     return out;
 }
 
+template<Prop P>
+vh::Outcome run_tracked(const vh::Case& c) {
+    // cfg[2] selects the list's mutex type (a template parameter of rcu_list)
+    if (c.cfg.size() > 2 && c.cfg[2] % 2 == 1) { vh::Outcome o = run_rcu<Tracked, vrt::QAlloc<Tracked>, vstd::timed_mutex>(c, P); o.labels.push_back("M=timed_mutex"); return o; }
+    return run_rcu<Tracked>(c, P);
+}
 vh::Outcome dispatch13(const vh::Case& c) {
     int t = c.cfg.empty() ? 0 : c.cfg[0] % 4;
     if (t == 3) { vh::Outcome o = run_rcu<Tracked, vrt::QAllocS<Tracked>>(c, P_C13); o.labels.push_back("stateful-allocator"); return o; }
@@ -362,16 +369,16 @@ vh::GenSpec spec(Prop p, bool thorough) {
     vh::GenSpec g;
     g.nfibers = p == P_C12S ? 1 : 4; g.max_ops = p == P_C12S ? (thorough ? 24 : 12) : (thorough ? 6 : 4);
     g.ncodes = 12; g.amax = 6; g.bmax = 8;
-    g.cfg_max = {4, 5};
+    g.cfg_max = {4, 5, 2};
     g.sched_len = thorough ? 224 : 160; g.aux_len = 16;
     g.sequential = p == P_C12S;
     return g;
 }
 
-vh::Register r5("C05", spec(P_C05, false), spec(P_C05, true), [](const vh::Case& c) { return run_rcu<Tracked>(c, P_C05); },
+vh::Register r5("C05", spec(P_C05, false), spec(P_C05, true), run_tracked<P_C05>,
                 "generated rcu_list clients (pausing readers, erasing/pushing writers, short-lived handles) x generated schedule with a quarantining allocator; "
                 "non-trivial = a node was deallocated while a handle was alive, or a reader was paused on an element at the moment it was erased");
-vh::Register r12("C12", spec(P_C12, false), spec(P_C12, true), [](const vh::Case& c) { return run_rcu<Tracked>(c, P_C12); },
+vh::Register r12("C12", spec(P_C12, false), spec(P_C12, true), run_tracked<P_C12>,
                  "generated traversing readers x pushing/erasing writers x generated schedule; oracle = position-key monotonicity, stable elements visited, final contents vs model; "
                  "non-trivial = a full traversal overlapped at least one mutation");
 vh::GenSpec spec12f(bool th) { vh::GenSpec g = spec(P_C12, th); g.fault_max = 10; g.fault_mask = vrt::F_ALLOC; return g; }
